@@ -123,6 +123,9 @@ def _nonlin_solver(fcn, x0, params,
 
         # print out dx and df
         to_stop = stop_cond.check(xnew, ynew, dx)
+        if y_norm_new == 0:
+            # an exact root: the next step would be a zero vector
+            to_stop = True
         if verbose:
             if i < 10 or i % 10 == 0 or to_stop:
                 print("%6d: |dx|=%.3e, |f|=%.3e" % (i, dx_norm, y_norm))
